@@ -13,6 +13,15 @@ import io
 from .sym import Sym, SymStr, SxUnsupported, has_sym, sx_add
 
 
+def _drop(entries, e):
+    """remove entry e by identity (list.remove would compare names with ==, i.e. ask the solver)"""
+    for i, x in enumerate(entries):
+        if x is e:
+            del entries[i]
+            return
+    raise ValueError('entry not in directory')
+
+
 def _plain(c):
     """a concrete str / bytes chunk (symbolic strings report `str` as their class, so test the real type)"""
     return type(c) in (str, bytes) or (isinstance(c, (str, bytes)) and not isinstance(c, Sym))
@@ -385,7 +394,7 @@ class MPath:
                 return
             raise FileNotFoundError(str(self) if not has_sym(self.parts) else 'symbolic')
         self.fs.tick(('unlink', self.parts))
-        d.entries.remove(e)
+        _drop(d.entries, e)
 
     def rmdir(self):
         d, e = self.fs.parent_entry(self.parts)
@@ -394,7 +403,7 @@ class MPath:
         if e[1].entries:
             raise OSError('directory not empty')
         self.fs.tick(('rmdir', self.parts))
-        d.entries.remove(e)
+        _drop(d.entries, e)
 
     def symlink_to(self, target, target_is_directory=False):
         d = self.fs.node(self.parts[:-1])
@@ -639,10 +648,10 @@ class Shutil:
                     self.fs.tick(('rmdir', parts + (ent[0],)))
                 else:
                     self.fs.tick(('rm', parts + (ent[0],)))
-                node.entries.remove(ent)
+                _drop(node.entries, ent)
         rm(e[1], p.parts)
         self.fs.tick(('rmdir', p.parts))
-        d.entries.remove(e)
+        _drop(d.entries, e)
 
     def move(self, a, b):
         a, b = self._p(a), self._p(b)
@@ -659,13 +668,15 @@ class Shutil:
             if self.fs._find(db, name) is not None:
                 raise OSError('destination exists')
             self.fs.tick(('rename', a.parts, b.parts + (name,)))
-            da.entries.remove(ea)
+            _drop(da.entries, ea)
             db.entries.append([name, ea[1]])
             return
         self.fs.tick(('rename', a.parts, b.parts))
-        da.entries.remove(ea)
+        if eb is ea:
+            return                      # source and destination are the same entry
+        _drop(da.entries, ea)
         if eb is not None:
-            db.entries.remove(eb)
+            _drop(db.entries, eb)
         db.entries.append([b.parts[-1], ea[1]])
 
     def copyfile(self, a, b):
